@@ -568,6 +568,13 @@ func ite(c, a, b string) string {
 func (e *Enc) heapKeyFor(pointee types.Type) (key, cellSort string) {
 	s := e.sortOf(pointee)
 	key = "H_" + sanitize(s)
+	// named non-struct types (plugin.MTU, corerad.problems ...) get their own
+	// heap component: Go's type system keeps *MTU apart from other *int cells
+	if n, ok := types.Unalias(pointee).(*types.Named); ok {
+		if _, isStruct := n.Underlying().(*types.Struct); !isStruct && n.Obj().Pkg() != nil && !isNamed(n, "time", "Time") && !isNamed(n, "net/netip", "Addr") && !isNamed(n, "net/netip", "Prefix") {
+			key = "H_" + sanitize(n.Obj().Pkg().Name()+"_"+n.Obj().Name())
+		}
+	}
 	e.heapSort[key] = fmt.Sprintf("(Array Int %s)", s)
 	return key, s
 }
